@@ -285,7 +285,12 @@ def workload(task):
             if a[0] == b[0] and a[1] + a[2] > b[1]:
                 stat('overlapping_writes')
         prefixes = list(range(1, n_events + 1))
-        if len(prefixes) > task['max_prefixes']:
+        chunk = task.get('chunk', 0)
+        if chunk:
+            # further samples of the same workload's prefixes (thorough tier splits a workload into several short tasks)
+            rng = rng_for(task['seed'], 'C10chunk', task['idx'], chunk)
+            prefixes = sorted(rng.sample(prefixes, min(len(prefixes), task['max_prefixes'])))
+        elif len(prefixes) > task['max_prefixes']:
             # aimed sampling: the prefixes right after a file creation (first entries of a new segment) are always included
             creates = [i for i, e in enumerate(trace) if e['kind'] == 'create' and i > 10]
             aimed = sorted({p for c in creates for p in range(c + 1, min(c + 26, n_events + 1))})
@@ -369,18 +374,22 @@ def run(tier, seed, budget):
                        'covered by a completed fsync/msync are durable; directory entries need a directory fsync', 'bytes of WAL writes are taken from the final file '
                        '(the checker counts overlapping writes; rolled-back headers are zeros either way)', 'io_uring batch writes go through O_SYNC handles under SyncEach']
     binary = common.build('wsrv', 'debug')
-    tasks = [{'binary': binary, 'seed': seed, 'idx': i, 'max_prefixes': 14 if q else 60, 'max_choices': 3 if q else 8} for i in range(9 if q else 150)]
+    if q:
+        tasks = [{'binary': binary, 'seed': seed, 'idx': i, 'max_prefixes': 14, 'max_choices': 3} for i in range(9)]
+    else:
+        tasks = [{'binary': binary, 'seed': seed, 'idx': i, 'chunk': c, 'max_prefixes': 14, 'max_choices': 8} for c in range(5) for i in range(150)]
     for t, res in pmap(workload, tasks, budget_s=budget):
         if isinstance(res, Exception):
             rep.add_inconclusive(repr(res)); continue
         if res['inconclusive']:
             rep.add_inconclusive(res['inconclusive']); continue
-        rep.count('workloads')
+        if not t.get('chunk'):
+            rep.count('workloads')
         rep.merge_cover(res['stats'])
         rep.count('cfg:' + json.dumps(res['params']['mode']) + '/' + res['params']['backend'])
         n = res['stats'].get('states', 0)
         for j in range(n):
-            rep.add_case(fingerprint([t['idx'], j]), True, res['sample'] if j == 0 else None)
+            rep.add_case(fingerprint([t['idx'], t.get('chunk', 0), j]), True, res['sample'] if j == 0 else None)
         for f in res['findings']:
             rep.add_violation(Violation('C10', f['cls'], f['detail'], ['backend:' + res['params']['backend']],
                                         {'kind': 'c10-state', 'seed': t['seed'], 'idx': t['idx'], **f['replay'], 'finding': f}))
